@@ -115,7 +115,7 @@ def observe(t):
     u = unfuse_all(t)
     legs = u.get_legs()
     ldesc = tuple((l.s, tuple(l.t), tuple(l.D)) for l in legs)
-    return ("tensor", ldesc, tuple(u.n), u.to_numpy())
+    return ("tensor", ldesc, tuple(u.n), u.to_numpy(), u)
 
 
 # ------------------------------------------------------------------ step execution
@@ -174,8 +174,9 @@ def apply_step(pool, step, cfg):
         return [pool[step[1]].flip_charges(axes=tuple(step[2]))]
     if op == "zero_block":
         c = pool[step[1]].copy()
-        k = step[2] % len(c.struct.t)
-        c.set_block(ts=c.struct.t[k], Ds=c.struct.D[k], val="zeros")
+        key = tuple(step[2])
+        if key in c:             # block presence (explicit zero blocks) may differ between policies: absent = already zero
+            c[key] = c[key] * 0  # documented item assignment on a private copy; key is in logical leg order
         return [c]
     if op == "remove_zero_blocks":
         return [pool[step[1]].remove_zero_blocks()]
@@ -248,7 +249,7 @@ def _small(t):
     return isinstance(t, yastn.Tensor) and t.size <= MAX_SIZE and t.ndim <= MAX_RANK
 
 
-def propose(pool, rng, fermionic):
+def propose(pool, rng, fermionic, fuse_modes=(None, None, "hard", "meta")):
     """One applicable step (or None)."""
     import yastn
     tens = [i for i, t in enumerate(pool) if isinstance(t, yastn.Tensor)]
@@ -320,7 +321,7 @@ def propose(pool, rng, fermionic):
             k += g
         if all(not isinstance(g, tuple) for g in groups):
             groups = [tuple(p[:2])] + p[2:]
-        return ("fuse", i, tuple(groups), rng.choice((None, None, "hard", "meta")))
+        return ("fuse", i, tuple(groups), rng.choice(fuse_modes))
     if kind == "unfuse":
         i = pick(lambda t: not t.isdiag and any(is_fused(l) and "s" not in "".join(_op_string(l)) for l in t.get_legs()))
         if i is None:
@@ -409,8 +410,14 @@ def propose(pool, rng, fermionic):
                 if not is_fused(l) and (legs_contractible(l, ld, +1) or legs_contractible(l, ld, -1)) and set(l.t) <= set(ld.t):
                     if kind == "broadcast":
                         return ("broadcast", d, j, k)
-                    if "float" in str(pool[d].yastn_dtype):
-                        return ("mask", d, j, float(np.median(np.abs(pool[d]._data))) if pool[d].size else 0.0, k)
+                    if "float" in str(pool[d].yastn_dtype) and pool[d].size:
+                        # threshold strictly inside a gap of the spectrum, so round-off cannot move a value across it
+                        v = np.sort(np.abs(pool[d]._data))
+                        gaps = [(v[q + 1] - v[q], q) for q in range(len(v) - 1) if v[q + 1] - v[q] > 1e-6 * (1 + v[q + 1])]
+                        if not gaps:
+                            return None
+                        q = rng.choice(gaps)[1]
+                        return ("mask", d, j, float(0.5 * (v[q] + v[q + 1])), k)
         return None
     if kind == "diag":
         i = pick(lambda t: t.isdiag)
@@ -426,10 +433,15 @@ def propose(pool, rng, fermionic):
     if kind == "to_dict":
         return ("to_dict", pick(), rng.choice((0, 1, 2)))
     if kind == "zero_block":
-        i = pick(lambda t: len(t.struct.t) >= 2 and tuple(t.trans) == tuple(range(t.ndim_n)))
+        i = pick(lambda t: len(t.struct.t) >= 2 and not t.isdiag and not any(is_fused(l) for l in t.get_legs()))
         if i is None:
             return None
-        return ("zero_block", i, rng.randrange(64))
+        a = pool[i]
+        keys = [tuple(x for t in k for x in t) for k in itertools.islice(itertools.product(*(l.t for l in a.get_legs())), 300)]
+        keys = [k for k in keys if k in a]
+        if not keys:
+            return None
+        return ("zero_block", i, rng.choice(keys))
     if kind == "remove_zero_blocks":
         i = pick(lambda t: t.size > 0 and any(not np.any(t._data[slice(*sl.slcs[0])]) for sl in t.slices))
         if i is None:
@@ -438,7 +450,7 @@ def propose(pool, rng, fermionic):
     return None
 
 
-def generate(rng, nprng, sym, fermionic=False, length=12, cfg=None, ntensors=None):
+def generate(rng, nprng, sym, fermionic=False, length=12, cfg=None, ntensors=None, fuse_modes=(None, None, "hard", "meta")):
     """Generate (and execute under cfg) a random program.  Returns (Program, pool)."""
     import yastn
     cfg = cfg if cfg is not None else D.make_cfg(sym, fermionic)
@@ -456,7 +468,7 @@ def generate(rng, nprng, sym, fermionic=False, length=12, cfg=None, ntensors=Non
     tries = 0
     while len(prog.steps) < length and tries < length * 12:
         tries += 1
-        step = propose(pool, rng, fermionic)
+        step = propose(pool, rng, fermionic, fuse_modes)
         if step is None:
             continue
         try:
